@@ -16,6 +16,8 @@ corpus/C01/overflow_sites.json; a new site is a VIOLATION.
 import itertools, json, os, re, time, random, traceback
 import c01lib as L
 from c01lib import SigIds, FlatNS, ExprGen, ser_expr, parse_vexpr, truncate, make_sigs, sig_range, used_signals
+from c01lib import ARITH, BITW, CMP
+from migen.fhdl.structure import _Operator, Cat, Replicate, Constant, Mux
 from litex.gen.fhdl.expression import _generate_expression
 from litex.gen.sim.core import Evaluator
 
@@ -135,10 +137,12 @@ def check_expr_batch(ctx, cases, dis, stats, witnesses):
                     dis.append(Dis("fits-on-raise", tag=c["tag"], text=text, env=env))
                 continue
             if f != rv:
-                dis.append(Dis("evalF", tag=c["tag"], text=text, env=env, lean=f, real=int(rv)))
+                dis.append(Dis("evalF", tag=c["tag"], text=text, env=env, lean=f, real=int(rv), lw=c["lw"],
+                               sigs=[[s_.nbits, bool(s_.signed)] for s_ in c["sigs"]], expr=dump_ast(c["e"], c["sigs"])))
                 continue
             if af != truncate(int(rv), c["lw"], False):
-                dis.append(Dis("storeF", tag=c["tag"], text=text, env=env, lean=af, real=int(rv)))
+                dis.append(Dis("storeF", tag=c["tag"], text=text, env=env, lean=af, real=int(rv), lw=c["lw"],
+                               sigs=[[s_.nbits, bool(s_.signed)] for s_ in c["sigs"]], expr=dump_ast(c["e"], c["sigs"])))
                 continue
             if static and not fits:
                 dis.append(Dis("static-unsound", tag=c["tag"], text=text, env=env,
@@ -190,6 +194,53 @@ def l1_random(ctx, n_expr, dis):
     ctx.cov.samples += witnesses[:3]
     ctx.log("L1: %s" % stats)
     return stats
+
+
+def l1_negative_positions(ctx, dis):
+    """Directed audit of `Evaluator.eval`, branch by branch: in EVERY operand position of every node kind the
+    Evaluator implements (unary / binary / shift / comparison operators, Mux condition and branches, Cat elements at
+    every place, Replicate x1..x3) an operand whose simulator value is a NEGATIVE Python int (`~a`, `-a`, `a - b`, a
+    signed signal, `-s`, `~s`, negative sized / unsized constants) or fills its whole width; exhaustive over the
+    valuations; Lean evalF/storeF vs the real Evaluator, printer vs text, evalV on the real text where Fits holds."""
+    from migen import Signal
+    a = Signal(3, name_override="s0")
+    b = Signal(2, name_override="s1")
+    sg = Signal((3, True), name_override="s2")
+    t1 = Signal((1, True), name_override="s3")
+    sigs = [a, b, sg, t1]
+    op = lambda o, *x: _Operator(o, list(x))
+    negs = [("nota", op("~", a)), ("nega", op("-", a)), ("sub", op("-", a, b)), ("s", sg), ("negs", op("-", sg)),
+            ("nots", op("~", sg)), ("s1bit", t1), ("csigned", Constant(-3, (3, True))), ("cneg", Constant(-2)),
+            ("cmin", Constant(-4, (3, True))), ("full", a)]
+    pos = []
+    for nm, n in negs:
+        pos += [("cat0." + nm, Cat(n, b)), ("cat1." + nm, Cat(b, n)), ("catmid." + nm, Cat(b, n, a)), ("cat1only." + nm, Cat(n)),
+                ("rep1." + nm, Replicate(n, 1)), ("rep2." + nm, Replicate(n, 2)), ("rep3." + nm, Replicate(n, 3)),
+                ("muxc." + nm, Mux(n, a, b)), ("muxt." + nm, Mux(b[0], n, a)), ("muxf." + nm, Mux(b[0], a, n)),
+                ("shl." + nm, op("<<<", n, Constant(2))), ("shr." + nm, op(">>>", n, Constant(1))),
+                ("shrv." + nm, op(">>>", n, b)), ("shlv." + nm, op("<<<", n, b)),
+                ("not." + nm, op("~", n)), ("neg." + nm, op("-", n)),
+                ("catrep." + nm, Cat(Replicate(n, 2), b)), ("repcat." + nm, Replicate(Cat(n, b[0]), 2))]
+        for o in ARITH + BITW + CMP:
+            pos += [("%s.l.%s" % (o, nm), op(o, n, b)), ("%s.r.%s" % (o, nm), op(o, b, n)), ("%s.both.%s" % (o, nm), op(o, n, sg))]
+    stats = dict(printed=0, printer_diff=0, evals=0, fits=0, nonfit=0, nonfit_differ=0, neg_shift=0, exhaustive=0, static_fit=0)
+    witnesses = []
+    cases = []
+    rng = ctx.rng
+    for tag, e in pos:
+        used = used_signals(e)
+        envs, exh = expr_envs(rng, sigs, used, max_exh_bits=9)
+        cases.append(dict(e=e, sigs=sigs, lw=rng.choice([2, 4, 9, 16]), envs=envs, exh=exh, tag="negpos." + tag))
+        if len(cases) >= 60:
+            check_expr_batch(ctx, cases, dis, stats, witnesses)
+            cases = []
+            if len(dis) > 20:
+                break
+    if cases and len(dis) <= 20:
+        check_expr_batch(ctx, cases, dis, stats, witnesses)
+    ctx.cov.add_cases("L1 directed: negative / width-filling operand in every operand position of every Evaluator.eval "
+                      "branch (%d expressions, exhaustive over inputs)" % len(pos), stats["evals"], stats["fits"], exhaustive=True)
+    ctx.log("L1 negative-operand positions: %d expressions, %s" % (len(pos), {k: stats[k] for k in ("evals", "fits", "nonfit", "printer_diff")}))
 
 
 # ----------------------------------------------------------------------------------------------------------
@@ -2229,7 +2280,9 @@ def correspond(ctx):
     quick = ctx.tier == "quick"
     corpus_run(ctx, dis)
     lowering_arith(ctx, 3000 if quick else 30000, dis)
-    l1_random(ctx, 1500 if quick else 12000, dis)
+    l1_negative_positions(ctx, dis)
+    if len(dis) <= 10:
+        l1_random(ctx, 1500 if quick else 12000, dis)
     if len(dis) <= 10:
         l2_random(ctx, 90 if quick else 900, 40 if quick else 120, dis)
     if len(dis) <= 10:
@@ -2405,6 +2458,10 @@ class SafeAdapter:
         return self.g.top(max(1, depth))
 
     def boolean(self, depth):
+        # If / Elif conditions: 0/1-valued, or (25 %) a wide operand whose simulator value is negative (`~x`, a signed
+        # signal): Evaluator.execute masks it to its width, the text tests the self-determined value
+        if self.g.rng.random() < 0.25:
+            return self.g.negword(max(1, depth))
         return self.g.boolean(depth, True)
 
     def atom(self):
@@ -2854,6 +2911,19 @@ def search(ctx, disagreements, proof_info):
                 bad = {"oracle": "run_simulation", "error": repr(ex)[:300]}
             if bad is not None:
                 return bad
+    # the model of the simulator and the real Evaluator part on an expression: look for a design + stimulus on which
+    # the property itself fails, starting from the very expression / valuation of the disagreement
+    seen = 0
+    for d in disagreements:
+        j = d.to_json()
+        if j["kind"] in ("evalF", "storeF") and "expr" in j and seen < 6:
+            seen += 1
+            try:
+                bad = search_eval_witness(ctx, j, rng)
+            except Exception:
+                bad = None
+            if bad is not None:
+                return bad
     n1, bad = oracle_expressions(rng, 3000)
     if bad is None:
         n2, bad = oracle_modules(rng, 150, 40)
@@ -2891,6 +2961,94 @@ def search(ctx, disagreements, proof_info):
         j = d.to_json()
         if j["kind"] in ("lowering",):
             return j
+    return None
+
+
+def ast_selfdet_safe(a, sigs):
+    """Independent (model-free) structural sufficient condition, on a dumped AST: the node's Migen width is the
+    self-determined width of its text and its bit pattern in that width is the same on both sides - signals,
+    constants in range, slices of signals, `~`/bitwise/comparison/Mux/Cat/Replicate of such nodes, `-s` of a signed
+    signal.  No `+ - * <<< >>>` (Migen widens, Verilog keeps the operand width)."""
+    k = a[0]
+    if k == "sig":
+        return True
+    if k == "const":
+        v, w, sg = a[1], a[2], a[3]
+        return w > 0 and ((-(1 << (w - 1)) <= v < (1 << (w - 1))) if sg else (0 <= v < (1 << w)))
+    if k == "slice":
+        return a[1][0] == "sig" and 0 <= a[2] < a[3] <= sigs[a[1][1]][0]
+    if k in ("cat",):
+        return len(a) > 1 and all(ast_selfdet_safe(x, sigs) for x in a[1:])
+    if k == "rep":
+        return a[2] >= 1 and ast_selfdet_safe(a[1], sigs)
+    if k == "mux":
+        return all(ast_selfdet_safe(x, sigs) for x in a[1:])
+    if k == "op":
+        op, args = a[1], a[2:]
+        if op == "~" or op in ("&", "|", "^", "<", "<=", "==", "!=", ">", ">="):
+            return all(ast_selfdet_safe(x, sigs) for x in args)
+        if op == "-" and len(args) == 1:
+            return args[0][0] == "sig" and sigs[args[0][1]][1]
+    return False
+
+
+def ast_top_safe(a, sigs):
+    """Right-hand side of `y.eq(...)`: ring operators (+ - * unary - ~ & | ^, `<<<` by a small constant) over
+    self-determined-safe operands are exact modulo 2^len(y) on both sides."""
+    if ast_selfdet_safe(a, sigs):
+        return True
+    if a[0] == "op":
+        op, args = a[1], a[2:]
+        if op in ("+", "-", "*", "&", "|", "^", "~"):
+            return all(ast_top_safe(x, sigs) for x in args)
+        if op in ("<<<", "<<") and args[1][0] == "const" and 0 <= args[1][1] <= 8 and not args[1][3]:
+            return ast_top_safe(args[0], sigs)
+    return False
+
+
+def ast_subtrees(a):
+    yield a
+    if a[0] in ("op",):
+        for x in a[2:]:
+            yield from ast_subtrees(x)
+    elif a[0] in ("mux", "cat"):
+        for x in a[1:]:
+            yield from ast_subtrees(x)
+    elif a[0] in ("slice", "rep"):
+        yield from ast_subtrees(a[1])
+
+
+def search_eval_witness(ctx, j, rng, tries=60):
+    """A disagreement between the Lean model of the simulator (evalF/storeF) and the real Evaluator on an expression:
+    turn it into a concrete design + stimulus on which the PROPERTY fails, without the Lean model - the smallest
+    sub-expression `t` that is structurally overflow-free (`ast_top_safe`) and for which `y.eq(t)`, converted by the
+    real convert and read by the independent reader, differs from the real simulator on the design."""
+    lean = ctx.lean
+    ctx.lean = None
+    try:
+        sigs = j["sigs"]
+        ranges = [range(-(1 << (n - 1)), 1 << (n - 1)) if sg else range(0, 1 << n) for n, sg in sigs]
+        cands = [t for t in ast_subtrees(j["expr"]) if t[0] not in ("sig", "const") and ast_top_safe(t, sigs)]
+        cands.sort(key=lambda t: len(json.dumps(t)))
+        for t in cands[:12]:
+            lw = max(1, min(64, 2 + sum(n for n, _ in sigs)))
+            for k in range(tries):
+                env = list(j["env"]) if k == 0 else [rng.choice([r_[0], r_[-1], rng.randrange(r_[0], r_[-1] + 1)]) for r_ in ranges]
+                w = dict(id="search", kind="module", status="finding", what="", sigs=sigs, expr=t, lw=lw, env=env)
+                try:
+                    r = run_witness(ctx, w)
+                except Exception as ex:
+                    return {"oracle": "golden-module (expression)", "replay": {"kind": "module", "sigs": sigs, "expr": t, "lw": lw, "env": env},
+                            "error": repr(ex)[:300], "what": "convert / simulation of y.eq(expression) fails"}
+                if r["simulator"] != r["verilog"]:
+                    return {"oracle": "golden-module (expression)",
+                            "replay": {"kind": "module", "sigs": sigs, "expr": t, "lw": lw, "env": env},
+                            "signals": {"s%d" % i: v for i, v in enumerate(env)}, "expression": t,
+                            "simulator": r["simulator"], "verilog": r["verilog"], "verilog_text": r["text"],
+                            "what": "y.eq(e) for an expression e without any intermediate-overflow site: the real "
+                                    "simulator on the design and the reading of the emitted text differ"}
+    finally:
+        ctx.lean = lean
     return None
 
 
@@ -2964,6 +3122,47 @@ def candidate_probe_sim_cat_target():
     return fails, ("convert(regular_comb=False): comb `Cat(a, b).eq(y)` sharing a target with other statements is emitted as "
                    "`assign {b, a} = y;` on signals declared reg and drives b from two processes "
                    "(continuous assignment to a reg: %s; multiply driven: %s)" % (bad_assign, multi))
+
+
+def candidate_probe_array_negative_key():
+    """CANDIDATE finding (not in known_findings.json, NOT called from probes() until the coordinator lists it; id
+    proposed: C01-array-negative-key).  `Evaluator.eval`, `_ArrayProxy` branch: `idx = min(len(choices) - 1, eval(key))`
+    does not reduce the key to its width.  A key whose simulator value is a negative Python int (`arr[~x]`, a signed
+    key holding a negative value) indexes the Python list from the END (`choices[-2]`) or raises IndexError below
+    -len, while the emitted text (`case (~x)` with `default:` = last element) selects by the key's bit pattern.
+    Witness: arr = Array([1, 2, 4]); y.eq(arr[~x]), x 2 bit: x=1 -> simulator 2, Verilog 4; x=3 -> IndexError.
+    One-line fix: mask the key: `self.eval(node.key, postcommit) & (2**len(node.key) - 1)`.
+    The generators keep Array keys unsigned slices (never negative) so the correspondence stays outside this region.
+    Returns (still_fails, what)."""
+    from migen import Module, Signal, Array
+    from c01lib import Netlist
+
+    class D(Module):
+        def __init__(self):
+            self.x, self.y = Signal(2, name_override="x"), Signal(4, name_override="y")
+            self.comb += self.y.eq(Array([Constant(1, 4), Constant(2, 4), Constant(4, 4)])[~self.x])
+    out = []
+    for xv in (1, 2, 3):
+        dA, dB = D(), D()
+        cap = L.convert_capture(dB, [dB.x, dB.y])
+        sigs = L.module_signals(cap)
+        ids = SigIds()
+        for s_ in sigs:
+            ids.get(s_)
+        ni = {cap.ns.get_name(s_): ids.get(s_) for s_ in sigs}
+        pv = L.PyVSim(L.parse_module(cap.text, ni), ni)
+        pv.state[ids.get(dB.x)] = xv
+        pv.settle()
+        nl = Netlist(dA, clocks=())
+        try:
+            nl.set(dA.x, xv)
+            nl.settle()
+            sim = nl.getu(dA.y)
+        except IndexError:
+            sim = "IndexError"
+        out.append((xv, sim, pv.state[ids.get(dB.y)]))
+    fails = any(sim != ver for _, sim, ver in out)
+    return fails, "Array([1,2,4])[~x], x 2 bit: (x, simulator, Verilog) = %s" % (out,)
 
 
 def probes(ctx):
